@@ -36,6 +36,7 @@ type MemFile struct {
 	failed   int  // number of calls failed so far
 
 	park func(kind byte, off int64, n int) // scheduler hook (C05/C18)
+	parkAfter func(kind byte, off int64, n int) // the same, after the bytes were copied into the caller's buffer
 }
 
 func NewMemFile() *MemFile { return &MemFile{logOn: true} }
@@ -112,6 +113,14 @@ func (f *MemFile) doPark(kind byte, off int64, n int) {
 
 func (f *MemFile) ReadAt(p []byte, off int64) (int, error) {
 	f.doPark('R', off, len(p))
+	n, err := f.readAt(p, off)
+	if pa := f.parkAfter; pa != nil {
+		pa('R', off, len(p)) // the bytes are in the caller's buffer; the call has not returned yet
+	}
+	return n, err
+}
+
+func (f *MemFile) readAt(p []byte, off int64) (int, error) {
 	f.mu.Lock()
 	defer f.mu.Unlock()
 	fail := f.shouldFail()
